@@ -22,6 +22,7 @@ def jobs(tier):
         mk('C05', 'child/yield_await/k0', S.child('yield_await', k=0), witnesses=W),
         mk('C05', 'drain/AB', S.drain(('A', 'B')), witnesses=W),
         mk('C05', 'par/await_two_later', S.par_await_two_later(), witnesses=W),
+        mk('C05', 'child/await/ffG/k0', S.child('await', k=0, child_ff=True), witnesses=W),
     ]
     if tier == 'thorough':
         out += [
